@@ -56,6 +56,8 @@ struct TJob final : yaclib::Job {
   long submit_begin = -1, submit_end = -1, exec_at = -1;
   bool dropped_at_submit_return = false;
   bool serial = false;  // jobs of a strand must never overlap
+  int grp = 0;          // 0: submitted to the top of the stack, 1: submitted directly to the inner strand of a 2-strand stack
+  int rounds = 1;       // 2: the same node was submitted a second time after it had finished (node reuse, stale `next`)
   void Call() noexcept final {
     ++calls;
     if (s->after_wait) {
@@ -70,7 +72,7 @@ struct TJob final : yaclib::Job {
     }
     exec_at = ++s->clock;
     vf::Point();
-    if (child != nullptr && resubmit_to != nullptr) {
+    if (child != nullptr && resubmit_to != nullptr && calls + drops == 1) {  // (only in the node's first round)
       child->submit_begin = ++s->clock;
       resubmit_to->Submit(*child);
       child->submit_end = ++s->clock;
@@ -81,22 +83,27 @@ struct TJob final : yaclib::Job {
       --s->in_strand;
     }
     --s->running;
+    ++finished;
   }
   void Drop() noexcept final {
     ++drops;
     // like a dropped pipeline step whose successor targets the same executor: Drop re-enters Submit
-    if (child != nullptr && resubmit_to != nullptr && resubmit_on_drop) {
+    if (child != nullptr && resubmit_to != nullptr && resubmit_on_drop && calls + drops == 1) {
       child->submit_begin = ++s->clock;
       resubmit_to->Submit(*child);
       child->submit_end = ++s->clock;
       child->dropped_at_submit_return = child->drops > 0;
     }
+    ++finished;
   }
+  int finished = 0;  // Call / Drop returned: from here on the executor may not touch the node any more
   bool resubmit_on_drop = false;
 };
 
 struct Config {
   int under, workers, submitters, jobs, stop, delay, resub_mask, refuse_from;
+  bool split = false;  // strand over strand: odd submitters feed the inner strand directly
+  bool reuse = false;  // every submitter re-submits its first job once more after that job finished
   bool strand_checks, pool_checks;
 };
 
@@ -119,7 +126,7 @@ void RunCase(Explorer& ex, const Config& cf, RunOut& out) {
     yaclib::IExecutorPtr manual_ptr;
     yaclib::ManualExecutor* manual = nullptr;
     vf::TagInlineExec refusing{5, cf.refuse_from};
-    yaclib::IExecutorPtr e;
+    yaclib::IExecutorPtr e, inner;
     switch (cf.under) {
       case kPool:
       case kStrandPool:
@@ -130,6 +137,7 @@ void RunCase(Explorer& ex, const Config& cf, RunOut& out) {
           e = yaclib::MakeStrand(e);
         }
         if (cf.under >= kStrand2Pool) {
+          inner = e;
           e = yaclib::MakeStrand(e);
         }
         break;
@@ -160,6 +168,7 @@ void RunCase(Explorer& ex, const Config& cf, RunOut& out) {
         job->submitter = s;
         job->seq = j;
         job->serial = serial;
+        job->grp = cf.split && inner && s % 2 == 1 ? 1 : 0;
         all.push_back(std::move(job));
       }
     }
@@ -188,9 +197,21 @@ void RunCase(Explorer& ex, const Config& cf, RunOut& out) {
             ++sh.submit_during_batch;
           }
           job.submit_begin = ++sh.clock;
-          e->Submit(job);
+          (job.grp == 1 ? inner : e)->Submit(job);
           job.submit_end = ++sh.clock;
           job.dropped_at_submit_return = job.drops > 0;
+        }
+        if (cf.reuse) {
+          // node reuse: the first job is handed to the executor a second time once it has finished (its `next` link
+          // still holds whatever the first round left there), like a coroutine promise re-submitted by On(e)
+          TJob& job = *all[static_cast<std::size_t>(s * cf.jobs)];
+          for (int spin = 0; spin < 400 && job.finished == 0; ++spin) {
+            yaclib_std::this_thread::yield();
+          }
+          if (job.finished == 1) {
+            job.rounds = 2;
+            (job.grp == 1 ? inner : e)->Submit(job);
+          }
         }
         --submitters_left;
       });
@@ -251,7 +272,7 @@ void RunCase(Explorer& ex, const Config& cf, RunOut& out) {
               continue;
             }
             ++expected;
-            fin += all[i]->calls + all[i]->drops > 0 ? 1 : 0;
+            fin += all[i]->calls + all[i]->drops >= all[i]->rounds ? 1 : 0;
           }
           if (fin == expected && sh.running == 0) {
             all_finished_before_stop = true;
@@ -289,10 +310,19 @@ void RunCase(Explorer& ex, const Config& cf, RunOut& out) {
         continue;
       }
     }
-    if (j.calls + j.drops != 1) {
-      out.err = j.calls + j.drops == 0 ? "job lost: neither Called nor Dropped at quiescence"
-                                       : "job finished more than once (Call and/or Drop repeated)";
+    if (j.calls + j.drops != j.rounds) {
+      out.err = j.calls + j.drops < j.rounds ? "job lost: neither Called nor Dropped at quiescence"
+                                             : "job finished more than once (Call and/or Drop repeated)";
       return;
+    }
+    if (j.rounds > 1) {
+      out.called += j.calls;
+      out.dropped += j.drops;
+      if (j.drops > 0 && !any_refusal_possible) {
+        out.err = "job Dropped although no executor ever refused work";
+        return;
+      }
+      continue;  // the submit-time based clauses below speak about one submission
     }
     out.called += j.calls;
     out.dropped += j.drops;
@@ -336,8 +366,8 @@ void RunCase(Explorer& ex, const Config& cf, RunOut& out) {
         continue;
       }
       for (auto& b : all) {
-        if (b->calls == 0 || a.get() == b.get()) {
-          continue;
+        if (b->calls == 0 || a.get() == b.get() || a->grp != b->grp || a->rounds > 1 || b->rounds > 1) {
+          continue;  // order is promised among the submissions to one strand; re-submitted nodes ran twice
         }
         const bool program_order = a->submitter == b->submitter && a->submitter >= 0 && a->seq < b->seq;
         const bool hb = a->submit_end >= 0 && b->submit_begin >= 0 && a->submit_end < b->submit_begin;
@@ -369,6 +399,8 @@ Config Decode(const Case& c, bool strand_family, bool pool_family) {
   cf.delay = c.H(5) % 14;
   cf.resub_mask = c.H(6);
   cf.refuse_from = c.H(7) % 8 == 7 ? -1 : c.H(7) % 8;
+  cf.split = cf.under == kStrand2Pool && c.H(7) % 2 == 1;
+  cf.reuse = c.H(5) / 14 % 2 == 1;
   cf.strand_checks = strand_family;
   cf.pool_checks = pool_family || cf.under == kPool;
   return cf;
@@ -387,7 +419,7 @@ class ExecFamily : public vf::Family {
   const char* Rule() const final {
     return "case = executor stack (pool(n) | strand over pool | strand over strand over pool | strand over Manual "
            "drained by a fiber | strand over Inline | strand over a refusing executor | Manual | Inline | stopped "
-           "Inline) x 1..3 submitter fibers x 1..4 instrumented jobs each (some re-submit a child from inside Call) x "
+           "Inline) x 1..3 submitter fibers x 1..4 instrumented jobs each (some re-submit a child from inside Call or Drop; optionally odd submitters feed the inner strand of a 2-strand stack directly, optionally each submitter re-submits its first job node after it finished) x "
            "Stop/SoftStop/HardStop issued after a generated number of yields (or after all submits) x schedule tape; "
            "oracle = every job Called xor Dropped exactly once at quiescence, Drop only if some executor refused, "
            "accepted pool jobs never dropped without HardStop, no Call after Wait, strand jobs never overlap, jobs "
@@ -399,7 +431,7 @@ class ExecFamily : public vf::Family {
     return rc::gen::exec([]() {
       Case c;
       c.hdr = {vf::Pick(0, 18), vf::Pick(0, 3),  vf::Pick(0, 3),       vf::Pick(0, 4),
-               vf::Pick(0, 4),  vf::Pick(0, 14), vf::Pick(0, 1 << 12), vf::Pick(0, 8)};
+               vf::Pick(0, 4),  vf::Pick(0, 14) + (vf::Pick(0, 4) == 0 ? 14 : 0), vf::Pick(0, 1 << 12), vf::Pick(0, 8)};
       if (vf::Pick(0, 3) != 0) {
         c.hdr[6] = 0;  // most cases without re-submission
       }
